@@ -136,6 +136,9 @@ func runC20(c *Ctx) error {
 			h[16], h[17], h[18] = 48, 0x20, 35
 			n := 28 + 4 + len(pkt)
 			h[24], h[25], h[26], h[27] = byte(n>>24), byte(n>>16), byte(n>>8), byte(n)
+			if rng.Chance(1, 3) { // any EAP code octet: the decoder goes by the length, not by the code
+				pkt[0] = byte(rng.Pick([]int{0, 3, 4, 5, 255}))
+			}
 			wire = append(append(h, 0, 0, byte((4+len(pkt))>>8), byte(4+len(pkt))), pkt...)
 		} else if i%9 == 4 {
 			// datagrams with payloads the library skips (unsupported, not critical) - next to supported ones or alone: the
